@@ -24,18 +24,9 @@ import vc2_conformance_data  # noqa: E402
 
 CSV = os.path.join(VERIF, "corpus", "codec_features.csv")
 PICTURES = [os.path.join(VERIF, "corpus", "pictures", n + ".raw") for n in ("square", "wide", "tall")]
-CODECS = ["minimal", "ld", "lossless", "frag", "fields", "c420", "asym"]
+CODECS = ["minimal", "ld", "lossless", "frag", "fields", "c420", "asym", "customqm"]
 
-_swapped = [False]
-
-
-def swap_natural_pictures():
-    """The real 'natural' pictures are 4K; swap in the test-suite's small ones
-    (as tests/smaller_real_pictures.py does).  Recorded as a stub."""
-    if not _swapped[0]:
-        del vc2_conformance_data.NATURAL_PICTURES_FILENAMES[:]
-        vc2_conformance_data.NATURAL_PICTURES_FILENAMES.extend(PICTURES)
-        _swapped[0] = True
+from sim.workloads import swap_natural_pictures  # noqa: E402
 
 
 SEAMS = {cli_mod: ["open", "os", "makedirs"], file_format: ["open"]}
@@ -197,7 +188,7 @@ class C24(Spec):
             "file system and os/makedirs (sim.simfs) bound to the cli and file_format module globals",
             "worker processes are real threads of one interpreter released one at a time by the baton scheduler (sim.sched); a fresh-interpreter arm (run by the check after the batch) covers process and hash-seed independence",
             "natural pictures swapped for the test suite's three small pictures (corpus/pictures)",
-            "codec configurations: corpus/codec_features.csv (seven tiny columns derived from tests/sample_codec_features.csv)",
+            "codec configurations: corpus/codec_features.csv (eight tiny columns derived from tests/sample_codec_features.csv)",
         ],
     }
     assumptions = [
